@@ -121,8 +121,8 @@ ScaleViolated(e) ==
 (* C14                                                                     *)
 (***************************************************************************)
 Ch(e, k) == { c \in RangeS(e.changes) : c.kind = k }
-AliveOf(s, name) == { c \in AliveCmds(s) : c.base = name }
-NewCmdsOf(e, name) == { c \in Cmds(e.after) : c.base = name /\ c.serial \notin Serials(e.before) }
+AliveOf(s, name) == { c \in AliveCmds(s) : c.rname = name }    \* by replica name (as launched)
+NewCmdsOf(e, name) == { c \in Cmds(e.after) : c.rname = name /\ c.serial \notin Serials(e.before) }
 ExpectOf(e, name) == CHOOSE x \in RangeS(e.expect) : x.name = name
 StatusOf(e, name) == IF HasK(e.status, name) THEN ValK(e.status, name) ELSE "<none>"
 
@@ -157,10 +157,10 @@ C14_RemovedGone(e) ==
 C14_NoOldConfigLaunchedLater(e) ==
   ~e.err =>
     /\ \A ch \in Ch(e, "removed") :
-          /\ { c \in Cmds(e.later) : c.base = ch.name /\ c.serial \notin Serials(e.after) } = {}
-          /\ { c \in AliveCmds(e.later) : c.base = ch.name } = {}
+          /\ { c \in Cmds(e.later) : c.rname = ch.name /\ c.serial \notin Serials(e.after) } = {}
+          /\ { c \in AliveCmds(e.later) : c.rname = ch.name } = {}
     /\ \A ch \in Ch(e, "changed") :
-          \A c \in { x \in Cmds(e.later) : x.base = ch.name /\ (x.serial \notin Serials(e.after) \/ x.alive) } :
+          \A c \in { x \in Cmds(e.later) : x.rname = ch.name /\ (x.serial \notin Serials(e.after) \/ x.alive) } :
              c.argv = ExpectOf(e, ch.name).argv /\ ValK(c.env, "UW") = ExpectOf(e, ch.name).uw
 
 \* added processes are launched - unless they wait for a dependency that has not completed (C01 for added processes)
@@ -168,7 +168,7 @@ C14_AddedLaunched(e) ==
   ~e.err => \A ch \in Ch(e, "added") :
      /\ ch.name \in { p.rname : p \in Procs(e.after) }
      /\ IF ch.gated
-        THEN /\ { c \in Cmds(e.after) : c.base = ch.name } = {} /\ { c \in Cmds(e.later) : c.base = ch.name } = {}
+        THEN /\ { c \in Cmds(e.after) : c.rname = ch.name } = {} /\ { c \in Cmds(e.later) : c.rname = ch.name } = {}
              /\ \A p \in Procs(e.later) : p.rname = ch.name => p.status = "Pending"
         ELSE AliveOf(e.after, ch.name) # {}
 C14_StatusMapExact(e) ==
